@@ -215,7 +215,7 @@ def execute_agg(ctx, case):
     lines.append(aggpat.render(r, style))
   with open(path, 'w') as f:
     f.write('\n'.join(lines) + '\n')
-  os.utime(path, (2000000000, 2000000000))
+  os.utime(path, (1500000000, 1500000000))   # a file written in the past, like every real rules file
   RM = b.rules.RuleManager
   RM.rules_last_read = 0.0
   settings = c05.FakeSettings(REPLICATION_FACTOR=case['rf'], DIVERSE_REPLICAS=case['diverse'], ROUTER_HASH_TYPE=case['hash'],
@@ -257,7 +257,7 @@ def execute_agg(ctx, case):
     if gi == 1:
       with open(path, 'w') as f:
         f.write('\n'.join(aggpat.render(r, 0) for r in current_rules) + '\n')
-      os.utime(path, (2000000100, 2000000100))
+      os.utime(path, (1500000100, 1500000100))
       try:
         RM.read_rules()          # what the manager's 10 s reload task calls
       except Exception as e:  # noqa
